@@ -152,6 +152,12 @@ class StmtMixin:
         return self.store_index_special(base, idx, v, node, fr)
 
     def store_index_special(self, base, idx, v, node, fr):
+        if isinstance(base, VDict) and isinstance(self.get_payload(base.ref), IntMapP):
+            p = self.mut_payload(base.ref) if base.ref not in self.payload else self.payload[base.ref]
+            k = self.as_int(idx)
+            p.keys = z3.Store(p.keys, k, z3.BoolVal(True))
+            p.vals = z3.Store(p.vals, k, self.as_int(v))
+            return
         raise Unsupported(f"subscript store on {base!r}")
 
     def s_Delete(self, st, fr):
@@ -444,6 +450,9 @@ class StmtMixin:
             self.assume_axiom(ln >= 0)
         elif isinstance(p, GhostSeqP):
             raise Unsupported("loop appends tokens (ghost sequence)")
+        elif isinstance(p, IntMapP):
+            n = self.new_ref(name)
+            self.payload[ref] = IntMapP(z3.Array(n + "?in", z3.IntSort(), z3.BoolSort()), z3.Array(n, z3.IntSort(), z3.IntSort()))
         else:
             raise Unsupported(f"havoc of {type(p).__name__}")
 
@@ -466,7 +475,9 @@ class StmtMixin:
             if v.cls in SCHEMA and last in SCHEMA[v.cls]:
                 cur = self.get_field(v, last)
                 sty = SCHEMA[v.cls][last]
-                if sty in ("int", "bool", "atom", "str", "cache", "opaque", "map", "optlist") and not types.get(last):
+                if sty == "intmap":
+                    self.havoc_payload(cur.ref, path)
+                elif sty in ("int", "bool", "atom", "str", "cache", "opaque", "map", "optlist") and not types.get(last):
                     self.heap[(v.ref, last)] = self.sym_for_type(sty, self.new_ref(path))
                 elif isinstance(cur, VList):
                     self.havoc_payload(cur.ref, path)
@@ -519,6 +530,8 @@ class StmtMixin:
         if not self.feasible():
             self.oblige("COVER", f"{site}/invariant", False, st, "invariant unsatisfiable")
             raise PathEnd()
+        for gname, gexpr in (lc.get("let") or {}).items():  # ghost snapshots taken at the loop head
+            fr.locals[gname] = self.spec_eval(gexpr, fr)
         # 4. iterate once or leave
         c = cond()
         dec0 = self.spec_int(dec, fr) if dec else None
